@@ -1670,8 +1670,12 @@ class Cluster(object):
         return self.connection_class.factory(endpoint, self.connect_timeout, *args, **kwargs)
 
     def _make_connection_factory(self, host, *args, **kwargs):
-        kwargs = self._make_connection_kwargs(host.endpoint, kwargs)
-        return partial(self.connection_class.factory, host.endpoint, self.connect_timeout, *args, **kwargs)
+        def factory():
+            # the settings are resolved for every attempt: the protocol version may have been
+            # negotiated down since the factory was made, and authenticators are single-use
+            connection_kwargs = self._make_connection_kwargs(host.endpoint, dict(kwargs))
+            return self.connection_class.factory(host.endpoint, self.connect_timeout, *args, **connection_kwargs)
+        return factory
 
     def _make_connection_kwargs(self, endpoint, kwargs_dict):
         if self._auth_provider_callable:
